@@ -4,6 +4,7 @@ CONSTANTS
   MaxT = 5
   Types = {"f", "h", "fh"}
   Lows = {TRUE, FALSE}
+  Stales = {0, 1, 2, 3, 4}
   EmitMode = "none"
 INVARIANTS TypeOK Conforms HeapAhead EmitWalk
 CHECK_DEADLOCK FALSE
